@@ -145,7 +145,10 @@ impl VouchedTime {
         }
 
         Self::check_vouched_time(
-            local_time.assume_utc().unix_timestamp_nanos() / 1_000_000,
+            local_time
+                .assume_utc()
+                .unix_timestamp_nanos()
+                .div_euclid(1_000_000),
             base_time_ms,
         )
     }
